@@ -226,6 +226,15 @@ Theorem C13_find_occurrences_sound : forall dic occ, find_occurrences dic = Ok o
 Proof. exact find_occurrences_sound. Qed.
 Print Assumptions C13_find_occurrences_sound.
 
+(* ... and misses none: every mention made by a cell reachable from the level-0
+   cells is recorded (so the number of mentions the score divides by is the number
+   of mentions in reachable cells) *)
+Theorem C13_find_occurrences_complete : forall dic occ, find_occurrences dic = Ok occ ->
+  forall key c sub, reachable dic key -> lookup key dic = Some c ->
+    In sub (extract_subcells (cgeom c)) -> recorded occ sub key.
+Proof. exact find_occurrences_complete. Qed.
+Print Assumptions C13_find_occurrences_complete.
+
 (* inlining does what the option says: afterwards no cell mentions a cell of
    to_inline (given that no geometry is a bare CellRef, as pot_fill guarantees) *)
 Theorem C13_inline_complete : forall fuel ti dic dic',
@@ -347,6 +356,110 @@ Theorem C13_options_same_geometry :
      sense_of sense s1 a1 = sense_of sense s2 a2 /\ sense_of sense s1 b1 = sense_of sense s2 b2).
 Proof. exact options_same_geometry. Qed.
 Print Assumptions C13_options_same_geometry.
+
+(* ---- linked with C01 (cell trees -> volumes -> written table) ---- *)
+From T4V Require C01.Model C01.Spec C01.ProofsPrune C01.ProofsCells.
+From T4V Require Import C13.LinkC01.
+
+(* what C13 offers C01: the renumbering returned by the de-duplication satisfies
+   C01's hypothesis "sigma is constant on merged surfaces" ([respects]) for the
+   senses induced by any function of the descriptors (from C13_dedup_merges_equal) *)
+Theorem C13_merged_surfaces_equal_senses : forall (sense : desc R -> bool) (surfs : list (Z * desc R)),
+  NoDup (map fst surfs) ->
+  C01.ProofsPrune.respects (sense_of sense surfs) (snd (remove_duplicate_surfaces RS surfs)).
+Proof. exact merged_surfaces_equal_senses. Qed.
+Print Assumptions C13_merged_surfaces_equal_senses.
+
+(* THE PROPERTY for two option vectors, composed in Coq: stage 1 is C13's
+   cell_stage (FILL under the inline flags, inlining of any set), stage 2 and 3
+   are C01's conversion loop, prune (renumbering of either vector: any map that
+   gives merged surfaces equal senses, or none) and skipped-cells filter, applied
+   to the embedded tables ([embed_cells]; C01_partition discharges what was a
+   Section hypothesis).  sigma is a sense assignment over TRIPOLI-4 surface
+   numbers, [sigmaM] reads the MCNP surfaces through `matching`.  If cell c owns
+   sigma, then sigma lies in the same written non-FICTIVE volumes under both
+   option vectors - exactly the one numbered c when c is in the conversion list,
+   none otherwise - and cell c has the same provenance and material in both cell
+   tables (GEOMCOMP and the VOLU comment are derived from those).
+   Not covered by the link: FILL / TRCL transformations in stage 1 (keys differ
+   between option vectors, see C13_fill_geometry_den_tr), lattices, and that the
+   comment of volume c is the cell's provenance (C01's model carries v_orig but
+   C01_cells does not state it). *)
+Theorem C13_options_same_written_linked :
+  forall fuel (o1 o2 : options) dic counter d1 c1 d2 c2
+         sigma matching u0 u1 cfuel todo cnt0 s1 s2 rn1 rn2 skipped w1 w2 c,
+  (forall k, lookup k dic <> None -> k <= counter) -> (exists rank, acyclic rank dic) ->
+  good_cells matching dic ->
+  cell_stage fuel o1 dic counter = Ok (d1, c1) -> cell_stage fuel o2 dic counter = Ok (d2, c2) ->
+  0 < u0 -> 0 < u1 -> C01.Spec.consistent sigma u0 u1 ->
+  NoDup todo -> (forall k, In k todo -> k <= cnt0) -> (forall k, In k todo -> lookup k d1 <> None) ->
+  C01.Model.convert_cells cfuel (embed_cells d1) matching u0 u1 todo (C01.Model.mkSt cnt0 [] [] []) = C01.Model.Ok s1 ->
+  C01.Model.convert_cells cfuel (embed_cells d2) matching u0 u1 todo (C01.Model.mkSt cnt0 [] [] []) = C01.Model.Ok s2 ->
+  C01.Model.prune u0 u1 rn1 (C01.Model.vols s1) = C01.Model.Ok w1 ->
+  C01.Model.prune u0 u1 rn2 (C01.Model.vols s2) = C01.Model.Ok w2 ->
+  (forall r, rn1 = Some r -> C01.ProofsPrune.respects sigma r) ->
+  (forall r, rn2 = Some r -> C01.ProofsPrune.respects sigma r) ->
+  (forall k, In k skipped -> k <= cnt0 /\ ~ In k todo) ->
+  lookup c d1 <> None ->
+  exists r1, acyclic r1 d1 /\
+  (cden r1 (sigmaM sigma matching) d1 c = true ->
+   (forall c', In c' todo -> cden r1 (sigmaM sigma matching) d1 c' = true -> c' = c) ->
+   (forall k, C01.ProofsCells.in_volume sigma (C01.Model.written skipped w1) k <->
+              C01.ProofsCells.in_volume sigma (C01.Model.written skipped w2) k) /\
+   (In c todo -> forall k, C01.ProofsCells.in_volume sigma (C01.Model.written skipped w1) k <-> k = c) /\
+   (~ In c todo -> forall k, ~ C01.ProofsCells.in_volume sigma (C01.Model.written skipped w1) k) /\
+   (forall a b, lookup c d1 = Some a -> lookup c d2 = Some b ->
+      corigin a = corigin b /\ cmat a = cmat b)).
+Proof. exact options_same_written_linked_input. Qed.
+Print Assumptions C13_options_same_written_linked.
+
+(* the same with the renumbering of each option vector taken from C13's own
+   de-duplication ([renumbering_of]: none under --skip-deduplication) and sigma
+   induced on the surface table by any function of the descriptors: C01's
+   "merged surfaces have equal senses" hypotheses are discharged, what remains
+   assumed about sigma is the consistency of the two helper planes *)
+Theorem C13_options_same_written_dedup_linked :
+  forall (sense : desc R -> bool) surfs fuel (o1 o2 : options) dic counter d1 c1 d2 c2
+         matching u0 u1 cfuel todo cnt0 s1 s2 skipped w1 w2 c,
+  NoDup (map fst surfs) ->
+  (forall k, lookup k dic <> None -> k <= counter) -> (exists rank, acyclic rank dic) ->
+  good_cells matching dic ->
+  cell_stage fuel o1 dic counter = Ok (d1, c1) -> cell_stage fuel o2 dic counter = Ok (d2, c2) ->
+  0 < u0 -> 0 < u1 -> C01.Spec.consistent (sense_of sense surfs) u0 u1 ->
+  NoDup todo -> (forall k, In k todo -> k <= cnt0) -> (forall k, In k todo -> lookup k d1 <> None) ->
+  C01.Model.convert_cells cfuel (embed_cells d1) matching u0 u1 todo (C01.Model.mkSt cnt0 [] [] []) = C01.Model.Ok s1 ->
+  C01.Model.convert_cells cfuel (embed_cells d2) matching u0 u1 todo (C01.Model.mkSt cnt0 [] [] []) = C01.Model.Ok s2 ->
+  C01.Model.prune u0 u1 (renumbering_of o1 surfs) (C01.Model.vols s1) = C01.Model.Ok w1 ->
+  C01.Model.prune u0 u1 (renumbering_of o2 surfs) (C01.Model.vols s2) = C01.Model.Ok w2 ->
+  (forall k, In k skipped -> k <= cnt0 /\ ~ In k todo) ->
+  lookup c d1 <> None ->
+  exists r1, acyclic r1 d1 /\
+  (cden r1 (sigmaM (sense_of sense surfs) matching) d1 c = true ->
+   (forall c', In c' todo -> cden r1 (sigmaM (sense_of sense surfs) matching) d1 c' = true -> c' = c) ->
+   (forall k, C01.ProofsCells.in_volume (sense_of sense surfs) (C01.Model.written skipped w1) k <->
+              C01.ProofsCells.in_volume (sense_of sense surfs) (C01.Model.written skipped w2) k) /\
+   (In c todo -> forall k, C01.ProofsCells.in_volume (sense_of sense surfs) (C01.Model.written skipped w1) k <-> k = c) /\
+   (~ In c todo -> forall k, ~ C01.ProofsCells.in_volume (sense_of sense surfs) (C01.Model.written skipped w1) k) /\
+   (forall a b, lookup c d1 = Some a -> lookup c d2 = Some b ->
+      corigin a = corigin b /\ cmat a = cmat b)).
+Proof. exact options_same_written_dedup_linked. Qed.
+Print Assumptions C13_options_same_written_dedup_linked.
+
+(* non-vacuity of the link: both stage-1 tables of C13_example_options run through
+   C01's loop and prune (with and without a renumbering) and leave the same
+   non-FICTIVE volumes 2, 12, 13 *)
+Example C13_example_linked :
+  good_cells ex_matching ex_dic /\
+  exists d1 d2 s1 s2 w1 w2,
+    cell_stage 10 (mkOptions false false false []) ex_dic 11 = Ok (d1, 13) /\
+    cell_stage 10 (mkOptions true true true [1; 10]) ex_dic 11 = Ok (d2, 13) /\
+    C01.Model.convert_cells 6 (embed_cells d1) ex_matching 3 4 [2; 12; 13] (C01.Model.mkSt 13 [] [] []) = C01.Model.Ok s1 /\
+    C01.Model.convert_cells 6 (embed_cells d2) ex_matching 3 4 [2; 12; 13] (C01.Model.mkSt 13 [] [] []) = C01.Model.Ok s2 /\
+    C01.Model.prune 3 4 (Some [(1, 1); (2, 2); (3, 3); (4, 4)]) (C01.Model.vols s1) = C01.Model.Ok w1 /\
+    C01.Model.prune 3 4 None (C01.Model.vols s2) = C01.Model.Ok w2 /\
+    map fst (filter (fun kv => negb (C01.Model.v_fict (snd kv))) w1) = [2; 12; 13] /\
+    map fst (filter (fun kv => negb (C01.Model.v_fict (snd kv))) w2) = [2; 12; 13].
+Proof. split; [exact ex_good|exact ex_linked_runs]. Qed.
 
 (* ---- non-vacuity ---- *)
 (* a container (cell 1, FILL=1) and the two cells of universe 1: the stage under
